@@ -99,9 +99,57 @@ pub async fn run_variant(backend: Backend, lines: &[Line], mut model: Option<&mu
             let mo = m.ask(&model_line);
             o.compared += 1;
             if mo != out {
-                o.disagreements.push((format!("answer of `{}`", line.show()), mo, out.clone()));
+                o.disagreements.push((format!("answer of `{}`", line.show()), mo.clone(), out.clone()));
             }
             let ml = m.ask("log");
+            // which branch of the model this line took (coverage of the model under the correspondence run)
+            {
+                let has = |e: &str| ml.split(';').any(|x| x == e || x.starts_with(&format!("{e} ")));
+                let err = mo.starts_with("err");
+                let mut b: Vec<&str> = vec![];
+                match line {
+                    Line::Add(_) => {
+                        if has("wm") { b.push("add:watermark-put"); }
+                        if err && has("del") { b.push("add:compensating-delete-landed"); }
+                        if err && !has("doc") && !has("del") && mo == "err:io" { b.push("add:failed-before-or-at-create"); }
+                        if err && has("doc") { b.push("add:create-landed-unacked"); }
+                    }
+                    Line::Update(..) | Line::Remove(_) => {
+                        if err && has("intent+") && !has("doc") && !has("del") { b.push("mutate:intent-landed-doc-not"); }
+                        if err && (has("doc") || has("del")) { b.push("mutate:doc-step-landed-unacked"); }
+                        if mo == "ok none" { b.push("remove:not-in-bitmap"); }
+                    }
+                    Line::Flush(_) | Line::Close(_) => {
+                        if mo == "ok false" { b.push("flush:fast-path"); }
+                        if !err && ml != "-" && !has("meta") { b.push("flush:metadata-skipped"); }
+                        if !err && has("meta") && !has("cp") { b.push("flush:checkpoint-rate-limited"); }
+                        if !err && has("intent-") { b.push("flush:retired-intents"); }
+                        if err && ml != "-" { b.push("flush:failed-after-some-writes"); }
+                        if err && ml == "-" { b.push("flush:failed-before-any-write"); }
+                        if mo == "err:precond" { b.push("flush:rejected-conditional-put"); }
+                    }
+                    Line::Reopen(_) => {
+                        if mo == "ok" && ml == "-" { b.push("reopen:nothing-to-write"); }
+                        if mo == "ok" && ml != "-" { b.push("reopen:wrote"); }
+                        if mo == "ok" && has("intent-") { b.push("reopen:replayed-and-retired-intents"); }
+                        if mo == "ok" && has("ids") { b.push("reopen:repaired-bitmap"); }
+                        if err && ml != "-" { b.push("reopen:cut-after-some-writes"); }
+                        if err && ml == "-" { b.push("reopen:cut-before-any-write"); }
+                    }
+                    Line::SaveExt(_) => {
+                        if err && has("meta") { b.push("saveext:landed-unacked"); }
+                        if mo == "err:precond" { b.push("saveext:rejected-conditional-put"); }
+                    }
+                    Line::Compact(_) => {
+                        if err && has("ixc") { b.push("compact:commit-landed-unacked"); }
+                        if mo == "err:precond" { b.push("compact:rejected-conditional-put"); }
+                    }
+                    _ => {}
+                }
+                for x in b {
+                    o.hits.push(format!("model-branch:{x}"));
+                }
+            }
             if backend == Backend::Mem && ml != real_log {
                 o.disagreements.push((format!("backend mutations of `{}`", line.show()), ml, real_log.clone()));
             }
